@@ -35,4 +35,6 @@ func VerifC10CellUV(c Cell) (face int, ulo, uhi, vlo, vhi float64) {
 func VerifC10CapRadius(c Cap) float64 { return float64(c.radius) }
 
 // VerifC10CapFromChord builds a cap from a centre and a raw chord angle.
-func VerifC10CapFromChord(center Point, r float64) Cap { return Cap{center: center, radius: s1ChordAngle(r)} }
+func VerifC10CapFromChord(center Point, r float64) Cap {
+	return Cap{center: center, radius: s1ChordAngle(r)}
+}
